@@ -262,6 +262,17 @@ def rec_star(seed):
         a = sorted([fk(r['xcentroid']), fk(r['ycentroid'])] for r in t if float(r['sharpness']) >= lo2)
         b = sorted([fk(r['xcentroid']), fk(r['ycentroid'])] for r in t2) if t2 is not None else []
         out.append({'id': 100000000 + seed, 'kind': 'pair', 'rel': 'tightening_a_bound_removes_exactly_the_violating_rows', 'a': a, 'b': b})
+    # relation: relaxing min_separation to an explicit 0 never removes a source (IRAF / DAO)
+    if which in ('iraf', 'dao') and not use_xy and not brightest and seed % 3 == 0:
+        from photutils.detection import DAOStarFinder as _D, IRAFStarFinder as _I
+        mkk = lambda ms: (_I(thr, 3.0, roundlo=0.0, roundhi=1.0, sharplo=0.2, sharphi=2.0, exclude_border=excl, min_separation=ms) if which == 'iraf'  # noqa
+                          else _D(thr, 3.0, exclude_border=excl, min_separation=ms))
+        with warnings.catch_warnings():
+            warnings.simplefilter('ignore')
+            t4, t0 = mkk(4.0)(data, mask=mask), mkk(0)(data, mask=mask)
+        p4 = sorted([fk(r['xcentroid']), fk(r['ycentroid'])] for r in t4) if t4 is not None else []
+        p0 = [[fk(r['xcentroid']), fk(r['ycentroid'])] for r in t0] if t0 is not None else []
+        out.append({'id': 400000000 + seed, 'kind': 'pair', 'rel': 'an_explicit_zero_min_separation_removes_nothing', 'a': [p for p in p4 if p in p0], 'b': p4})
     # relation: the same pixel values stored in another dtype (raw detector frames are unsigned) give the same table
     if seed % 2:
         di = np.clip(np.rint(data), 0, None)
